@@ -10,7 +10,7 @@ git worktree add -q --detach $WT HEAD || exit 2
 export CARGO_NET_OFFLINE=true
 for stem in "$@"; do
   prop=${stem%_*}
-  feat=""; if [ "$prop" = "C20" ]; then feat="--features mock-core,mock-std,mock-tokio-1,mock-futures-io-0-3,mock-embedded-hal-1"; fi
+  feat=""; if [ "$prop" = "C20" ] || [ "$prop" = "X08" ]; then feat="--features mock-core,mock-std,mock-tokio-1,mock-futures-io-0-3,mock-embedded-hal-1"; fi
   cd $WT; git reset -q --hard HEAD; git clean -qfd tests
   cp /tmp/wt/out/${stem}_demo.rs tests/seeded_${stem}.rs
   # without patch
